@@ -32,6 +32,8 @@ pub struct TypeAggregator {
     /// Maps import names that were superseded by a higher semver-compatible
     /// version to the canonical (highest version) name.
     name_redirects: HashMap<String, String>,
+    /// The foreign interfaces currently being remapped (to detect `use` cycles).
+    remapping: Vec<InterfaceId>,
 }
 
 impl TypeAggregator {
@@ -746,31 +748,39 @@ impl TypeAggregator {
         }
 
         let ty = &types[id];
-        let interface = Interface {
-            id: ty.id.clone(),
-            uses: ty
-                .uses
-                .iter()
-                .map(|(n, u)| {
-                    if types[u.interface].id.is_none() {
-                        bail!("used type `{n}` is from an interface without an identifier");
-                    }
+        if self.remapping.contains(&id) {
+            bail!("interface uses a type of an interface that contains it");
+        }
+        self.remapping.push(id);
+        let interface = (|| -> Result<Interface> {
+            Ok(Interface {
+                id: ty.id.clone(),
+                uses: ty
+                    .uses
+                    .iter()
+                    .map(|(n, u)| {
+                        if types[u.interface].id.is_none() {
+                            bail!("used type `{n}` is from an interface without an identifier");
+                        }
 
-                    Ok((
-                        n.clone(),
-                        UsedType {
-                            interface: self.remap_interface(types, u.interface, checker)?,
-                            name: u.name.clone(),
-                        },
-                    ))
-                })
-                .collect::<Result<_>>()?,
-            exports: ty
-                .exports
-                .iter()
-                .map(|(n, k)| Ok((n.clone(), self.remap_item_kind(types, *k, checker)?)))
-                .collect::<Result<_>>()?,
-        };
+                        Ok((
+                            n.clone(),
+                            UsedType {
+                                interface: self.remap_interface(types, u.interface, checker)?,
+                                name: u.name.clone(),
+                            },
+                        ))
+                    })
+                    .collect::<Result<_>>()?,
+                exports: ty
+                    .exports
+                    .iter()
+                    .map(|(n, k)| Ok((n.clone(), self.remap_item_kind(types, *k, checker)?)))
+                    .collect::<Result<_>>()?,
+            })
+        })();
+        self.remapping.pop();
+        let interface = interface?;
 
         let remapped = self.types.add_interface(interface);
         let prev = self
